@@ -14,7 +14,11 @@
                 in-memory datasets, images/backgrounds of every integer and float dtype over the
                 full value range vs an exact-rational reference and the Lean model, offsets as None / float / numpy scalar / int / list /
                 tuple / array / per-event feature; offsets shift one-to-one (F19);
-(E) crosstalk:  correct_crosstalk(spill(x)) == x, vs the adjugate inverse of the Lean model.
+(E) crosstalk:  correct_crosstalk(spill(x)) == x, vs the adjugate inverse of the Lean model;
+(F) histories:  random / repeated / still-cached / negative / numpy-integer / sliced / index-list
+                accesses through LazyContourList (max_events 1..5, n-1, n, n+3, None) and through
+                ds["contour"] of mask-only in-memory datasets (also > 1000 events, the default
+                cache): every returned contour equals get_contour(mask[i]) and refills to ITS mask.
 """
 import math
 from fractions import Fraction
@@ -35,7 +39,10 @@ RULE = ("A: masks = blobs grown from a seed pixel (8-neighbourhood, holes filled
         "range incl. >= 32768 and 65535, int16, int32, float32, float64; full/upper/lower/top/"
         "bottom/const/near value styles, backgrounds above the image) with shape masks, offsets in "
         "9 container kinds incl. 1e6, -2^31, 1e-12; exact-rational reference. E: non-negative spill matrices with |det| >= 0.05, signals up to 1e4, "
-        "plus negative / singular / two-channel matrices. Implementation vs Lean model to 1e-9 "
+        "plus negative / singular / two-channel matrices. F: access histories of 10-60 operations "
+        "over 3-14 pairwise different masks, max_events in {1..5, n-1, n, n+3, None, 0}, routes "
+        "list / 3-D array / ds['contour'] (deques shrunk), and datasets of 1020-1120 events with the "
+        "default cache of 1000; non-trivial when max_events < number of events. Implementation vs Lean model to 1e-9 "
         "relative (relative to the magnitude of the cancelling terms for central moments).")
 TRUSTED_BASE = [
     "modelled, not verified: numpy elementwise arithmetic/roll/sum/mean/std/percentile/linalg.inv "
@@ -1201,12 +1208,217 @@ def part_e(ctx, M, jobs):
 
 
 # =============================================================================================
+# F. contour access histories (LazyContourList / ds["contour"])
+def distinct_masks(rng, n, shape):
+    """n pairwise different connected hole-free masks (>= 2 pixels) that do not touch the border"""
+    out, seen = [], set()
+    h, w = shape
+    tries = 0
+    while len(out) < n and tries < 50 * n + 200:
+        tries += 1
+        k = rng.random()
+        if k < 0.6:
+            m = U.grow_blob(rng, h, w, rng.randint(2, h * w // 2))
+        elif k < 0.8:
+            m = U.thin_path(rng, h, w, rng.randint(2, h + w))
+        else:
+            m = np.zeros(shape, dtype=bool)
+            r0, c0 = rng.randrange(1, h - 2), rng.randrange(1, w - 2)
+            m[r0:rng.randint(r0 + 1, h - 1), c0:rng.randint(c0 + 1, w - 1)] = True
+        if m.sum() < 2 or U.touches_border(m) or not U.is_connected8(m):
+            continue
+        key = m.tobytes()
+        if key not in seen:
+            seen.add(key)
+            out.append(np.ascontiguousarray(m))
+    return out
+
+
+def gen_access_ops(rng, nm, nops, cached):
+    """op alphabet of the access histories; `cached()` returns the currently cached indices"""
+    ops = []
+    last = 0
+    for _ in range(nops):
+        k = rng.choice(["int", "int", "repeat", "cached", "cached", "oldest", "npint", "neg",
+                        "slice", "list", "scan"])
+        if k == "int":
+            op = ("i", rng.randrange(nm))
+        elif k == "repeat":
+            op = ("i", last)
+        elif k == "cached":                  # still cached, any position (not only the newest)
+            c = cached()
+            op = ("i", int(c[rng.randrange(len(c))]) if c else rng.randrange(nm))
+        elif k == "oldest":
+            c = cached()
+            op = ("i", int(c[0]) if c else 0)
+        elif k == "npint":
+            op = ("n", rng.randrange(nm))
+        elif k == "neg":
+            op = ("i", -rng.randint(1, nm))
+        elif k == "slice":
+            a = rng.randrange(nm)
+            op = ("s", a, min(nm, a + rng.randint(0, 4)), rng.choice([1, 1, 2]))
+        elif k == "list":
+            op = ("l", [rng.randrange(nm) for _ in range(rng.randint(1, 4))])
+        else:
+            a = rng.randrange(nm)
+            op = ("s", a, min(nm, a + rng.randint(3, 8)), 1)
+        if op[0] in ("i", "n"):
+            last = op[1] % nm
+        ops.append(op)
+        yield op
+
+
+def apply_access(obj, op, nm):
+    """perform one access; returns list of (event index, returned contour)"""
+    if op[0] == "i":
+        return [(op[1] % nm, obj[op[1]])]
+    if op[0] == "n":
+        return [(op[1], obj[np.int64(op[1])])]
+    if op[0] == "s":
+        idx = list(range(nm))[op[1]:op[2]:op[3]]
+        return list(zip(idx, obj[op[1]:op[2]:op[3]]))
+    idx = list(op[1])
+    return list(zip(idx, obj[np.array(idx, dtype=int)]))
+
+
+def history_fails(M, masks, fresh, make_obj, ops):
+    """run an access history on a fresh contour list; first failure (str) or None"""
+    nm = len(masks)
+    obj = make_obj()
+    for k, op in enumerate(ops):
+        r = guarded(apply_access, obj, op, nm)
+        if r[0] != "ok":
+            return f"access {k} {op} raised {r[1]}"
+        for e, c in r[1]:
+            c = np.asarray(c)
+            if not np.array_equal(c, fresh[e]):
+                which = [j for j in range(nm) if np.array_equal(c, fresh[j])]
+                return (f"access {k} {op}: the contour returned for event {e} is not "
+                        f"get_contour(mask[{e}])" + (f" but that of event {which[0]}" if which else ""))
+            if not np.array_equal(repo_fill(M, c, masks[e].shape), masks[e]):
+                return f"access {k} {op}: refilling the contour of event {e} does not reproduce its mask"
+    return None
+
+
+def part_f(ctx, M, jobs):
+    dclab = common.import_dclab()
+    fc = M["contour"]
+    for hno in range(ctx.n(50, 500)):
+        shape = (ctx.rng.randint(6, 10), ctx.rng.randint(6, 12))
+        nm = ctx.rng.randint(3, 14)
+        masks = distinct_masks(ctx.rng, nm, shape)
+        nm = len(masks)
+        if nm < 2:
+            continue
+        fresh = [np.array(fc.get_contour(m)) for m in masks]
+        maxev = ctx.rng.choice([1, 2, 3, 4, 5, 2, 3, nm - 1, nm, nm + 3, None, 0])
+        route = ctx.rng.choice(["list", "array3d", "dataset"])
+        if route == "dataset":
+            # ds["contour"] of an in-memory dataset that only has masks; the cache size of the
+            # ancillary feature is fixed (1000), so shrink its deques to exercise eviction
+            def make_obj(masks=masks, maxev=maxev):
+                from collections import deque
+                ds = dclab.new_dataset({"mask": np.array(masks),
+                                        "deform": np.linspace(0.01, 0.02, len(masks))})
+                lcl = ds["contour"]
+                lcl.contours = deque(maxlen=maxev or None)
+                lcl.indices = deque(maxlen=maxev or None)
+                make_obj.last = lcl
+                return lcl
+        else:
+            def make_obj(masks=masks, maxev=maxev, route=route):
+                data = np.array(masks) if route == "array3d" else list(masks)
+                lcl = fc.LazyContourList(data, max_events=maxev)
+                make_obj.last = lcl
+                return lcl
+        # the generator looks at the cache of a shadow object driven in lockstep
+        shadow = make_obj()
+        ops = []
+        for op in gen_access_ops(ctx.rng, nm, ctx.rng.randint(10, 60),
+                                 lambda: list(shadow.indices)):
+            ops.append(op)
+            guarded(apply_access, shadow, op, nm)
+        bounded = maxev in (None, 0) or len(shadow.indices) <= maxev
+        ctx.stat(f"F:route={route}")
+        ctx.stat("F:max_events=" + ("all" if not maxev else "<n" if maxev < nm else ">=n"))
+        ctx.case(("F", route, maxev, tuple(m.tobytes() for m in masks), repr(ops)),
+                 nontrivial=bool(maxev) and maxev < nm,
+                 sample={"part": "F", "route": route, "events": nm, "max_events": maxev,
+                         "ops": [list(map(str, o)) for o in ops[:8]]} if hno == 0 else None)
+        r = guarded(history_fails, M, masks, fresh, make_obj, ops)
+        bad = r[1] if r[0] == "ok" else f"history evaluation raised {r[1]}"
+        if bad is None and not bounded:
+            bad = f"more than max_events={maxev} contours are kept ({len(shadow.indices)})"
+        if bad:
+            small = ops
+            if r[0] == "ok" and r[1]:
+                small = common.ddmin(ops, lambda o: history_fails(M, masks, fresh, make_obj, o)
+                                     is not None)
+                bad = history_fails(M, masks, fresh, make_obj, small) or bad
+            ctx.violation("spec", f"contour access history ({route}, max_events={maxev}, "
+                                  f"{nm} events): {bad}",
+                          {"part": "F", "route": route, "max_events": maxev,
+                           "masks": [m.astype(int).tolist() for m in masks],
+                           "ops": [list(o) for o in small]})
+    # datasets larger than the default cache of ds["contour"] (1000 events), untouched deques
+    for rep in range(ctx.n(1, 3)):
+        nm = 1000 + ctx.rng.randint(20, 120)
+        masks = distinct_masks(ctx.rng, nm, (7, 9))
+        nm = len(masks)
+        fresh = [np.array(fc.get_contour(m)) for m in masks]
+
+        def make_ds(masks=masks):
+            ds = dclab.new_dataset({"mask": np.array(masks),
+                                    "deform": np.linspace(0.01, 0.02, len(masks))})
+            return ds["contour"]
+        ops = [("s", 0, nm, 1)]                                  # one pass fills the cache
+        for _ in range(ctx.rng.randint(20, 60)):
+            k = ctx.rng.random()
+            if k < 0.5:
+                ops.append(("i", ctx.rng.randrange(nm - 900, nm)))     # cached, not the newest
+            elif k < 0.7:
+                ops.append(("i", ctx.rng.randrange(0, nm - 1000)))     # evicted
+            elif k < 0.85:
+                a = ctx.rng.randrange(nm - 10)
+                ops.append(("s", a, a + ctx.rng.randint(1, 8), 1))
+            else:
+                ops.append(("i", ops[-1][1] if ops[-1][0] == "i" else nm - 1))
+        ctx.stat("F:dataset>1000-events")
+        ctx.case(("F-big", nm, repr(ops[1:])), nontrivial=True)
+        r = guarded(history_fails, M, masks, fresh, make_ds, ops)
+        bad = r[1] if r[0] == "ok" else f"history evaluation raised {r[1]}"
+        if bad is None:
+            # features derived through ds["contour"] after a history are those of the own event
+            def derived(masks=masks):
+                ds = dclab.new_dataset({"mask": np.array(masks),
+                                        "deform": np.linspace(0.01, 0.02, len(masks))})
+                for op in ops[1:]:
+                    apply_access(ds["contour"], op, len(masks))
+                return np.array(ds["inert_ratio_raw"][:])
+            d = guarded(derived)
+            want = np.array([M["inert"].get_inert_ratio_raw(c) for c in fresh])
+            if d[0] != "ok":
+                bad = f"ds['inert_ratio_raw'] raised {d[1]} after an access history"
+            elif not np.allclose(d[1], want, rtol=1e-12, atol=0, equal_nan=True):
+                k = int(np.nonzero(~np.isclose(d[1], want, rtol=1e-12, atol=0, equal_nan=True))[0][0])
+                bad = (f"ds['inert_ratio_raw'][{k}] = {d[1][k]!r} is not the inertia ratio of "
+                       f"the contour of mask {k} ({want[k]!r})")
+        if bad:
+            ctx.violation("spec", f"ds['contour'] of a dataset with {nm} events (> cache of 1000): "
+                                  f"{bad}",
+                          {"part": "F-big", "events": nm, "seed_note": "re-run the check with the "
+                           "same VERIF_SEED", "ops": [list(o) for o in ops[:40]]})
+
+
+# =============================================================================================
 def run_parts(ctx, M, jobs):
     conts = part_a(ctx, M, jobs)
     part_b(ctx, M, jobs, conts)
     part_c(ctx, M, jobs, conts)
     part_d(ctx, M, jobs)
     part_e(ctx, M, jobs)
+    part_f(ctx, M, jobs)
 
 
 def run(ctx):
@@ -1256,6 +1468,26 @@ def replay(ctx, data):
         fails = bright_eval(M, bright_unpayload(p))[0]
     elif part == "A":
         fails = contour_oracle(M, np.array(p["mask"], dtype=bool))[0]
+    elif part == "F":
+        from collections import deque
+        dclab = common.import_dclab()
+        masks = [np.array(m, dtype=bool) for m in p["masks"]]
+        fresh = [np.array(M["contour"].get_contour(m)) for m in masks]
+        maxev = p["max_events"]
+
+        def make_obj():
+            if p["route"] == "dataset":
+                ds = dclab.new_dataset({"mask": np.array(masks),
+                                        "deform": np.linspace(0.01, 0.02, len(masks))})
+                lcl = ds["contour"]
+                lcl.contours = deque(maxlen=maxev or None)
+                lcl.indices = deque(maxlen=maxev or None)
+                return lcl
+            data = np.array(masks) if p["route"] == "array3d" else list(masks)
+            return M["contour"].LazyContourList(data, max_events=maxev)
+        ops = [tuple(o) for o in p["ops"]]
+        f = history_fails(M, masks, fresh, make_obj, ops)
+        fails = [f] if f else []
     elif part == "A-dedup":
         pts = [tuple(q) for q in p["points"]]
         got = M["contour"].remove_duplicates(np.array(pts, dtype=int))
